@@ -23,13 +23,6 @@ Proof.
     + destruct (IH H). auto.
 Qed.
 
-Lemma del_all_in ids : forall hs k h, In (k, h) (del_all ids hs) -> In (k, h) hs /\ ~ In k ids.
-Proof.
-  unfold del_all. induction ids as [|c ids IH]; simpl; intros hs k h H; [auto|].
-  destruct (IH _ _ _ H) as [H1 H2]. apply hdel_in in H1 as [H1 Hne]. split; [assumption|].
-  intros [->|Hin]; [congruence|contradiction].
-Qed.
-
 Lemma hset_in c x k h hs : In (k, h) (hset c x hs) -> (k = c /\ h = x) \/ (In (k, h) hs /\ k <> c).
 Proof.
   unfold hset. intros [H|H]; [inversion H; auto|]. right. apply hdel_in. assumption.
@@ -42,61 +35,208 @@ Proof.
   apply hset_in in H1 as [[-> ->]|[H1 _]]; [left; auto|right; assumption].
 Qed.
 
+(** keys of the handlers map are unique *)
+Definition keys_ok (hs : list (cid * hkind)) : Prop := NoDup (map fst hs).
+
+Lemma hdel_key c hs k : In k (map fst (hdel c hs)) -> In k (map fst hs) /\ k <> c.
+Proof.
+  intros H. apply in_map_iff in H as ([k' h] & Hf & Hin). simpl in Hf. subst k'.
+  apply hdel_in in Hin as [Hin Hne]. split; [|assumption]. apply in_map_iff. exists (k, h). auto.
+Qed.
+
+Lemma hdel_keys c hs : keys_ok hs -> keys_ok (hdel c hs).
+Proof.
+  unfold keys_ok. induction hs as [|[k h] hs IH]; simpl; [auto|]. intros H. inversion H as [|? ? Hni Hnd]; subst.
+  destruct (cid_eqb k c); [auto|]. simpl. constructor; [|auto]. intros Hin. apply hdel_key in Hin as [Hin _]. auto.
+Qed.
+
+Lemma hset_keys c x hs : keys_ok hs -> keys_ok (hset c x hs).
+Proof.
+  intros H. unfold hset, keys_ok. simpl. constructor; [|apply hdel_keys; assumption].
+  intros Hin. apply hdel_key in Hin as [_ Hne]. congruence.
+Qed.
+
+Lemma set_all_keys ids x : forall hs, keys_ok hs -> keys_ok (set_all ids x hs).
+Proof.
+  unfold set_all. induction ids as [|c ids IH]; simpl; intros hs H; [assumption|]. apply IH, hset_keys, H.
+Qed.
+
+Lemma hget_in c h hs : keys_ok hs -> In (c, h) hs -> hget c hs = Some h.
+Proof.
+  unfold keys_ok. induction hs as [|[k h'] hs IH]; simpl; [intros _ []|]. intros Hnd [Heq|Hin].
+  - inversion Heq; subst. rewrite cid_eqb_refl. reflexivity.
+  - inversion Hnd as [|? ? Hni Hnd']; subst. destruct (cid_eqb k c) eqn:E.
+    + apply cid_eqb_eq in E. subst k. exfalso. apply Hni. apply in_map_iff. exists (c, h). auto.
+    + auto.
+Qed.
+
+Lemma hget_some c h hs : hget c hs = Some h -> In (c, h) hs.
+Proof.
+  induction hs as [|[k h'] hs IH]; simpl; [discriminate|]. destruct (cid_eqb k c) eqn:E.
+  - intros H; inversion H; subst. apply cid_eqb_eq in E. subst. left; reflexivity.
+  - intros H. right. auto.
+Qed.
+
+Lemma hget_hdel_other c x hs : c <> x -> hget c (hdel x hs) = hget c hs.
+Proof.
+  intros Hne. induction hs as [|[k h] hs IH]; simpl; [reflexivity|].
+  destruct (cid_eqb k x) eqn:Ex.
+  - apply cid_eqb_eq in Ex. subst k. destruct (cid_eqb x c) eqn:Ec; [apply cid_eqb_eq in Ec; congruence|assumption].
+  - simpl. destruct (cid_eqb k c); [reflexivity|assumption].
+Qed.
+
+Lemma hget_hset_other c x k hs : c <> x -> hget c (hset x k hs) = hget c hs.
+Proof.
+  intros Hne. unfold hset. simpl. destruct (cid_eqb x c) eqn:E; [apply cid_eqb_eq in E; congruence|].
+  apply hget_hdel_other. assumption.
+Qed.
+
+Lemma hget_set_all_other c ids k : forall hs, ~ In c ids -> hget c (set_all ids k hs) = hget c hs.
+Proof.
+  unfold set_all. induction ids as [|x ids IH]; simpl; intros hs Hni; [reflexivity|].
+  rewrite IH by tauto. apply hget_hset_other. intros ->. tauto.
+Qed.
+
+Lemma hkind_eqb_refl h : hkind_eqb h h = true.
+Proof. destruct h; simpl; try apply Z.eqb_refl; reflexivity. Qed.
+
+(** one step of the timer's loop *)
+Definition del_one (k : hkind) (h : list (cid * hkind)) (c : cid) :=
+  match hget c h with
+  | Some k' => if hkind_eqb k' k then hdel c h else h
+  | None => h
+  end.
+
+Lemma del_one_in k hs c x h : In (x, h) (del_one k hs c) -> In (x, h) hs.
+Proof.
+  unfold del_one. destruct (hget c hs) as [k'|]; [|auto]. destruct (hkind_eqb k' k); [|auto].
+  intros H. apply hdel_in in H. tauto.
+Qed.
+
+Lemma del_one_keys k hs c : keys_ok hs -> keys_ok (del_one k hs c).
+Proof.
+  unfold del_one. intros H. destruct (hget c hs) as [k'|]; [|assumption]. destruct (hkind_eqb k' k); [|assumption].
+  apply hdel_keys, H.
+Qed.
+
+Lemma del_if_in k ids : forall hs x h, In (x, h) (del_if k ids hs) -> In (x, h) hs.
+Proof.
+  unfold del_if. induction ids as [|c ids IH]; simpl; intros hs x h H; [assumption|].
+  apply IH in H. eapply del_one_in. exact H.
+Qed.
+
+Lemma del_if_keys k ids : forall hs, keys_ok hs -> keys_ok (del_if k ids hs).
+Proof.
+  unfold del_if. induction ids as [|c ids IH]; simpl; intros hs H; [assumption|]. apply IH. apply (del_one_keys k hs c H).
+Qed.
+
+(** an entry named by the timer that survives it is not the stand-in the timer installed *)
+Lemma del_if_gone k ids : forall hs x h, keys_ok hs -> In x ids -> In (x, h) (del_if k ids hs) -> hkind_eqb h k = false.
+Proof.
+  unfold del_if. induction ids as [|c ids IH]; simpl; intros hs x h Hk Hin H; [destruct Hin|].
+  fold (del_one k hs c) in H.
+  destruct (list_eq_dec Z.eq_dec c x) as [->|Hne].
+  - pose proof (del_if_in k ids _ _ _ H) as H1. fold (del_if k ids (del_one k hs x)) in H.
+    pose proof (del_one_in _ _ _ _ _ H1) as H0. pose proof (hget_in _ _ _ Hk H0) as Hg.
+    unfold del_one in H1. rewrite Hg in H1. destruct (hkind_eqb h k) eqn:E; [|reflexivity].
+    apply hdel_in in H1 as [_ Hc]. congruence.
+  - destruct Hin as [->|Hin]; [congruence|]. eapply IH; [apply (del_one_keys k hs c Hk)|exact Hin|exact H].
+Qed.
+
+(** live entries are never touched by a timer *)
+Lemma del_if_live k ids c n : closed_kind k -> forall hs, hget c hs = Some (HConn n) -> hget c (del_if k ids hs) = Some (HConn n).
+Proof.
+  intros Hcl. unfold del_if. induction ids as [|x ids IH]; simpl; intros hs Hg; [assumption|].
+  apply IH. destruct (list_eq_dec Z.eq_dec c x) as [<-|Hne].
+  - rewrite Hg. destruct k; simpl; [destruct Hcl|assumption|assumption].
+  - destruct (hget x hs) as [k'|]; [|assumption]. destruct (hkind_eqb k' k); [|assumption].
+    rewrite hget_hdel_other; assumption.
+Qed.
+
 Local Arguments hset : simpl never.
 Local Arguments hdel : simpl never.
 Local Arguments set_all : simpl never.
-Local Arguments del_all : simpl never.
+Local Arguments del_if : simpl never.
 
-(** timers: what fires deletes its IDs; survivors are named by no fired timer *)
+(** timers: what fires retires the entries it installed; survivors named by a fired timer
+    are not its stand-in *)
 Lemma fire_spec now : forall tm hs tm' hs',
-  fire now tm hs = (tm', hs') ->
-  (forall t ids, In (t, ids) tm' -> In (t, ids) tm /\ now < t) /\
-  (forall k h, In (k, h) hs' -> In (k, h) hs /\ forall t ids, In (t, ids) tm -> In k ids -> In (t, ids) tm') /\
-  ((forall t ids, In (t, ids) tm -> t <= now) -> tm' = []).
+  fire now tm hs = (tm', hs') -> keys_ok hs ->
+  (forall t ids k, In (t, ids, k) tm' -> In (t, ids, k) tm /\ now < t) /\
+  (forall x h, In (x, h) hs' -> In (x, h) hs /\
+     forall t ids k, In (t, ids, k) tm -> In x ids -> hkind_eqb h k = true -> In (t, ids, k) tm') /\
+  keys_ok hs' /\
+  ((forall t ids k, In (t, ids, k) tm -> t <= now) -> tm' = []).
 Proof.
-  induction tm as [|[t ids] tm IH]; simpl; intros hs tm' hs' H.
-  - inversion H; subst. split; [intros t ids []|split; [intros k h Hin; split; [assumption|intros t ids []]|reflexivity]].
+  induction tm as [|[[t ids] k] tm IH]; simpl; intros hs tm' hs' H Hk.
+  - inversion H; subst. split; [intros t ids k []|split; [intros x h Hin; split; [assumption|intros t ids k []]|split; [assumption|reflexivity]]].
   - destruct (Z.leb_spec t now) as [Hle|Hgt].
-    + destruct (IH _ _ _ H) as (H1 & H2 & H3). split; [|split].
-      * intros t0 i0 Hin. destruct (H1 _ _ Hin). auto.
-      * intros k h Hin. destruct (H2 _ _ Hin) as [Hd Hk]. apply del_all_in in Hd as [Hd Hni]. split; [assumption|].
-        intros t0 i0 [Heq|Hin0] Hk0; [inversion Heq; subst; contradiction|eauto].
-      * intros Hall. apply H3. intros; eapply Hall; eauto.
+    + destruct (IH _ _ _ H (del_if_keys k ids hs Hk)) as (H1 & H2 & H3 & H4). split; [|split; [|split]].
+      * intros t0 i0 k0 Hin. destruct (H1 _ _ _ Hin). auto.
+      * intros x h Hin. destruct (H2 _ _ Hin) as [Hd Hkeep]. split; [eapply del_if_in; eauto|].
+        intros t0 i0 k0 [Heq|Hin0] Hx Heqb; [|eauto]. inversion Heq; subst.
+        rewrite (del_if_gone _ _ _ _ _ Hk Hx Hd) in Heqb. discriminate.
+      * assumption.
+      * intros Hall. apply H4. intros; eapply Hall; eauto.
     + destruct (fire now tm hs) as [r' h'] eqn:E. inversion H; subst.
-      destruct (IH _ _ _ E) as (H1 & H2 & H3). split; [|split].
-      * intros t0 i0 [Heq|Hin]; [inversion Heq; subst; split; [auto|lia]|]. destruct (H1 _ _ Hin). auto.
-      * intros k h Hin. destruct (H2 _ _ Hin) as [Hd Hk]. split; [assumption|].
-        intros t0 i0 [Heq|Hin0] Hk0; [left; assumption|right; eauto].
-      * intros Hall. specialize (Hall t ids (or_introl eq_refl)). lia.
+      destruct (IH _ _ _ E Hk) as (H1 & H2 & H3 & H4). split; [|split; [|split]].
+      * intros t0 i0 k0 [Heq|Hin]; [inversion Heq; subst; split; [auto|lia]|]. destruct (H1 _ _ _ Hin). auto.
+      * intros x h Hin. destruct (H2 _ _ Hin) as [Hd Hkeep]. split; [assumption|].
+        intros t0 i0 k0 [Heq|Hin0] Hx Heqb; [left; assumption|right; eauto].
+      * assumption.
+      * intros Hall. specialize (Hall t ids k (or_introl eq_refl)). lia.
 Qed.
 
-(** every closed stand-in in the table is named by a pending removal timer, and every
-    pending timer lies in the future *)
+Lemma fire_live now c n : forall tm hs tm' hs',
+  fire now tm hs = (tm', hs') -> (forall t ids k, In (t, ids, k) tm -> closed_kind k) ->
+  hget c hs = Some (HConn n) -> hget c hs' = Some (HConn n).
+Proof.
+  induction tm as [|[[t ids] k] tm IH]; simpl; intros hs tm' hs' H Hcl Hg.
+  - inversion H; subst. assumption.
+  - destruct (t <=? now).
+    + eapply IH; [exact H|intros; eapply Hcl; eauto|]. apply del_if_live; [eapply Hcl; eauto|assumption].
+    + destruct (fire now tm hs) as [r' h'] eqn:E. inversion H; subst. eapply IH; [exact E|intros; eapply Hcl; eauto|assumption].
+Qed.
+
+(** the handlers map has unique keys; every closed stand-in in the table was installed by a
+    pending removal timer that names its ID; pending timers lie in the future and carry
+    closed stand-ins only *)
 Definition rinv (s : rt) : Prop :=
+  keys_ok (rt_handlers s) /\
   (forall k h, In (k, h) (rt_handlers s) -> closed_kind h ->
-     exists t ids, In (t, ids) (rt_timers s) /\ In k ids) /\
-  (forall t ids, In (t, ids) (rt_timers s) -> rt_now s < t).
+     exists t ids, In (t, ids, h) (rt_timers s) /\ In k ids) /\
+  (forall t ids k, In (t, ids, k) (rt_timers s) -> rt_now s < t /\ closed_kind k).
 
 Definition rop_ok (o : rop) : Prop :=
   match o with
-  | RReplace _ _ ex => 0 < ex          (* the closing period 3*PTO is positive *)
+  | RReplace _ _ ex _ => 0 < ex        (* the closing period 3*PTO is positive *)
   | RAdvance d => 0 <= d
   | _ => True
   end.
 
-Lemma raw_cover o s : rop_ok o ->
-  (forall k h, In (k, h) (rt_handlers s) -> closed_kind h -> exists t ids, In (t, ids) (rt_timers s) /\ In k ids) ->
-  (forall k h, In (k, h) (rt_handlers (fst (rt_step_raw o s))) -> closed_kind h ->
-     exists t ids, In (t, ids) (rt_timers (fst (rt_step_raw o s))) /\ In k ids).
+Lemma raw_keys o s : keys_ok (rt_handlers s) -> keys_ok (rt_handlers (fst (rt_step_raw o s))).
 Proof.
-  intros Hok Hc. destruct o as [c n|cd nw n|c|ids loc ex|d|t n|t|c]; simpl.
+  intros Hk. destruct o as [c n|cd nw n|c|ids loc ex ps|d|t n|t|c sz]; simpl; try assumption.
+  - destruct (hget c (rt_handlers s)); simpl; [assumption|apply hset_keys, Hk].
+  - destruct (hget cd (rt_handlers s)); simpl; [assumption|apply hset_keys, hset_keys, Hk].
+  - apply hdel_keys, Hk.
+  - apply set_all_keys, Hk.
+  - destruct (hget c (rt_handlers s)) as [[n|j|]|]; simpl; assumption.
+Qed.
+
+Lemma raw_cover o s : rop_ok o ->
+  (forall k h, In (k, h) (rt_handlers s) -> closed_kind h -> exists t ids, In (t, ids, h) (rt_timers s) /\ In k ids) ->
+  (forall k h, In (k, h) (rt_handlers (fst (rt_step_raw o s))) -> closed_kind h ->
+     exists t ids, In (t, ids, h) (rt_timers (fst (rt_step_raw o s))) /\ In k ids).
+Proof.
+  intros Hok Hc. destruct o as [c n|cd nw n|c|ids loc ex ps|d|t n|t|c sz]; simpl.
   - destruct (hget c (rt_handlers s)); simpl; [assumption|]. intros k h Hin Hcl.
     apply hset_in in Hin as [[-> ->]|[Hin _]]; [destruct Hcl|eauto].
   - destruct (hget cd (rt_handlers s)); simpl; [assumption|]. intros k h Hin Hcl.
     apply hset_in in Hin as [[-> ->]|[Hin _]]; [destruct Hcl|].
     apply hset_in in Hin as [[-> ->]|[Hin _]]; [destruct Hcl|eauto].
   - intros k h Hin Hcl. apply hdel_in in Hin as [Hin _]. eauto.
-  - intros k h Hin Hcl. apply set_all_in in Hin as [[Hin _]|Hin].
+  - intros k h Hin Hcl. apply set_all_in in Hin as [[Hin ->]|Hin].
     + exists (rt_now s + ex), ids. split; [apply in_or_app; right; left; reflexivity|assumption].
     + destruct (Hc _ _ Hin Hcl) as (t & i & Ht & Hk). exists t, i. split; [apply in_or_app; left; assumption|assumption].
   - assumption.
@@ -106,31 +246,46 @@ Proof.
 Qed.
 
 Lemma raw_timers o s : rop_ok o ->
-  (forall t ids, In (t, ids) (rt_timers s) -> rt_now s < t) ->
-  forall t ids, In (t, ids) (rt_timers (fst (rt_step_raw o s))) ->
-    In (t, ids) (rt_timers s) \/ rt_now s < t.
+  (forall t ids k, In (t, ids, k) (rt_timers s) -> rt_now s < t /\ closed_kind k) ->
+  forall t ids k, In (t, ids, k) (rt_timers (fst (rt_step_raw o s))) ->
+    closed_kind k /\ (In (t, ids, k) (rt_timers s) \/ rt_now s < t).
 Proof.
-  intros Hok Ht. destruct o as [c n|cd nw n|c|ids loc ex|d|t0 n|t0|c]; simpl; auto.
+  intros Hok Ht.
+  assert (Hold : forall t ids k, In (t, ids, k) (rt_timers s) -> closed_kind k /\ (In (t, ids, k) (rt_timers s) \/ rt_now s < t)).
+  { intros t ids k Hin. destruct (Ht _ _ _ Hin). auto. }
+  destruct o as [c n|cd nw n|c|ids loc ex ps|d|t0 n|t0|c sz]; simpl; auto.
   - destruct (hget c (rt_handlers s)); simpl; auto.
   - destruct (hget cd (rt_handlers s)); simpl; auto.
-  - intros t i Hin. apply in_app_or in Hin as [Hin|[Heq|[]]]; [auto|]. inversion Heq; subst. simpl in Hok. right. lia.
+  - intros t i k Hin. apply in_app_or in Hin as [Hin|[Heq|[]]]; [auto|]. inversion Heq; subst. simpl in Hok.
+    split; [destruct loc; exact I|right; lia].
   - destruct (hget c (rt_handlers s)) as [[n|j|]|]; simpl; auto.
+Qed.
+
+Lemma raw_now o s : rop_ok o -> rt_now s <= rt_now (fst (rt_step_raw o s)).
+Proof.
+  intros Hok. destruct o as [c n|cd nw n|c|ids loc ex ps|d|t n|t|c sz]; simpl in *; try lia.
+  - destruct (hget c (rt_handlers s)); simpl; lia.
+  - destruct (hget cd (rt_handlers s)); simpl; lia.
+  - destruct (hget c (rt_handlers s)) as [[n|j|]|]; simpl; lia.
 Qed.
 
 Lemma rt_step_inv o s : rop_ok o -> rinv s -> rinv (fst (rt_step o s)).
 Proof.
-  intros Hok [Hc Ht]. unfold rt_step.
-  pose proof (raw_cover o s Hok Hc) as Hc1.
-  destruct (rt_step_raw o s) as [s1 r] eqn:E1. simpl in Hc1.
+  intros Hok (Hk & Hc & Ht). unfold rt_step.
+  pose proof (raw_cover o s Hok Hc) as Hc1. pose proof (raw_keys o s Hk) as Hk1.
+  pose proof (raw_timers o s Hok Ht) as Ht1.
+  destruct (rt_step_raw o s) as [s1 r] eqn:E1. simpl in Hc1, Hk1, Ht1.
   destruct (fire (rt_now s1) (rt_timers s1) (rt_handlers s1)) as [tm hs] eqn:Ef.
-  destruct (fire_spec _ _ _ _ _ Ef) as (F1 & F2 & _). simpl. split; simpl.
+  destruct (fire_spec _ _ _ _ _ Ef Hk1) as (F1 & F2 & F3 & _). simpl. split; [|split]; simpl.
+  - assumption.
   - intros k h Hin Hcl. destruct (F2 _ _ Hin) as [Hin1 Hkeep].
-    destruct (Hc1 _ _ Hin1 Hcl) as (t & ids & Htm & Hk). exists t, ids. split; [eapply Hkeep; eauto|assumption].
-  - intros t ids Hin. apply F1 in Hin. tauto.
+    destruct (Hc1 _ _ Hin1 Hcl) as (t & ids & Htm & Hkk). exists t, ids. split; [|assumption].
+    eapply Hkeep; eauto. apply hkind_eqb_refl.
+  - intros t ids k Hin. apply F1 in Hin as [Hin Hlt]. split; [assumption|]. apply Ht1 in Hin. tauto.
 Qed.
 
 Lemma rinv_init : rinv rt_init.
-Proof. split; simpl; intros; contradiction. Qed.
+Proof. split; [constructor|split; simpl; intros; contradiction]. Qed.
 
 Theorem rt_run_inv ops : Forall rop_ok ops -> forall s, rinv s -> rinv (rt_run ops s).
 Proof.
@@ -140,47 +295,99 @@ Qed.
 
 (** (e) After any history, once time has passed the last pending closing period, no
     connection ID maps to a closed connection any more - and in every state a closed
-    stand-in is present only while one of its closing periods is still running. *)
+    stand-in is present only while the closing period that installed it is still running. *)
 Theorem routing_closed_expire ops :
   Forall rop_ok ops ->
   let s := rt_run ops rt_init in
   (forall k h, In (k, h) (rt_handlers s) -> closed_kind h ->
-     exists t ids, In (t, ids) (rt_timers s) /\ In k ids /\ rt_now s < t) /\
-  (forall d, 0 <= d -> (forall t ids, In (t, ids) (rt_timers s) -> t <= rt_now s + d) ->
+     exists t ids, In (t, ids, h) (rt_timers s) /\ In k ids /\ rt_now s < t) /\
+  (forall d, 0 <= d -> (forall t ids k, In (t, ids, k) (rt_timers s) -> t <= rt_now s + d) ->
      let s' := fst (rt_step (RAdvance d) s) in
      rt_timers s' = [] /\ forall k h, In (k, h) (rt_handlers s') -> ~ closed_kind h).
 Proof.
   intros HF s. pose proof (rt_run_inv ops HF rt_init rinv_init) as Hinv. fold s in Hinv.
   split.
-  - destruct Hinv as [Hc Ht]. intros k h Hin Hcl. destruct (Hc _ _ Hin Hcl) as (t & ids & H1 & H2).
+  - destruct Hinv as (_ & Hc & Ht). intros k h Hin Hcl. destruct (Hc _ _ Hin Hcl) as (t & ids & H1 & H2).
     exists t, ids. split; [assumption|split; [assumption|eapply Ht; eauto]].
   - intros d Hd Hall s'.
     assert (Hinv' : rinv s') by (apply rt_step_inv; [exact Hd|assumption]).
     assert (Htm : rt_timers s' = []).
     { unfold s', rt_step. simpl rt_step_raw. cbv iota beta.
       destruct (fire _ _ _) as [tm hs] eqn:Ef. simpl in Ef. simpl.
-      destruct (fire_spec _ _ _ _ _ Ef) as (_ & _ & F3). apply F3. assumption. }
-    split; [assumption|]. intros k h Hin Hcl. destruct Hinv' as [Hc _].
+      destruct Hinv as (Hk & _). destruct (fire_spec _ _ _ _ _ Ef Hk) as (_ & _ & _ & F4). apply F4. assumption. }
+    split; [assumption|]. intros k h Hin Hcl. destruct Hinv' as (_ & Hc & _).
     destruct (Hc _ _ Hin Hcl) as (t & ids & H1 & _). rewrite Htm in H1. destruct H1.
 Qed.
+
+(** (d) An ID routed to a live connection stays routed to it until an operation names that
+    very ID (Remove, ReplaceWithClosed, AddWithConnID as the new ID): in particular the
+    expiry of an EARLIER closed stand-in for the same ID does not take it away. *)
+Definition touches (o : rop) (c : cid) : Prop :=
+  match o with
+  | RRemove k => k = c
+  | RReplace ids _ _ _ => In c ids
+  | RAddWith _ nw _ => nw = c
+  | _ => False
+  end.
+
+Theorem live_survives o s c n :
+  rinv s -> ~ touches o c -> hget c (rt_handlers s) = Some (HConn n) ->
+  hget c (rt_handlers (fst (rt_step o s))) = Some (HConn n).
+Proof.
+  intros (Hk & Hc & Ht) Hnt Hg. unfold rt_step.
+  assert (Hraw : hget c (rt_handlers (fst (rt_step_raw o s))) = Some (HConn n) /\
+                 rt_timers (fst (rt_step_raw o s)) = rt_timers s ++ match o with RReplace ids loc ex _ => [(rt_now s + ex, ids, if loc then HLocal (rt_nlocal s) else HRemote)] | _ => [] end).
+  { destruct o as [k n'|cd nw n'|k|ids loc ex ps|d|t n'|t|k sz]; simpl in *; rewrite ?app_nil_r.
+    - destruct (hget k (rt_handlers s)) eqn:E; unfold with_handlers; cbn [fst rt_handlers rt_timers]; [auto|]. split; [|reflexivity].
+      rewrite hget_hset_other; [assumption|]. intros ->. congruence.
+    - destruct (hget cd (rt_handlers s)) eqn:E; unfold with_handlers; cbn [fst rt_handlers rt_timers]; [auto|]. split; [|reflexivity].
+      rewrite hget_hset_other by congruence. rewrite hget_hset_other; [assumption|]. intros ->. congruence.
+    - unfold with_handlers; cbn [fst rt_handlers rt_timers]. split; [|reflexivity]. rewrite hget_hdel_other by congruence. assumption.
+    - cbn [fst rt_handlers rt_timers]. split; [|reflexivity]. rewrite hget_set_all_other by assumption. assumption.
+    - auto.
+    - auto.
+    - auto.
+    - destruct (hget k (rt_handlers s)) as [[m|j|]|]; simpl; auto. }
+  destruct (rt_step_raw o s) as [s1 r] eqn:E1. simpl in Hraw. destruct Hraw as [Hg1 Htm1].
+  destruct (fire (rt_now s1) (rt_timers s1) (rt_handlers s1)) as [tm hs] eqn:Ef. simpl.
+  eapply fire_live; [exact Ef| |exact Hg1].
+  intros t ids k Hin. rewrite Htm1 in Hin. apply in_app_or in Hin as [Hin|Hin]; [apply (Ht _ _ _ Hin)|].
+  destruct o as [k0 n0|cd nw n0|k0|ids0 loc ex ps|d|t0 n0|t0|k0 sz]; try (destruct Hin; fail).
+  destruct Hin as [Heq|[]]. inversion Heq. destruct loc; exact I.
+Qed.
+
+Theorem live_survives_history ops o c n :
+  Forall rop_ok ops -> ~ touches o c ->
+  hget c (rt_handlers (rt_run ops rt_init)) = Some (HConn n) ->
+  hget c (rt_handlers (fst (rt_step o (rt_run ops rt_init)))) = Some (HConn n).
+Proof. intros HF. apply live_survives. apply rt_run_inv; [assumption|apply rinv_init]. Qed.
 
 (** (d) a connection ID that no Add / AddWithConnID / ReplaceWithClosed ever named is not routed *)
 Definition named (o : rop) (c : cid) : Prop :=
   match o with
   | RAdd k _ => k = c
   | RAddWith a b _ => a = c \/ b = c
-  | RReplace ids _ _ => In c ids
+  | RReplace ids _ _ _ => In c ids
   | _ => False
   end.
+
+Lemma fire_sub now : forall tm hs tm' hs' x h, fire now tm hs = (tm', hs') -> In (x, h) hs' -> In (x, h) hs.
+Proof.
+  induction tm as [|[[t ids] k] tm IH]; simpl; intros hs tm' hs' x h H Hin.
+  - inversion H; subst. assumption.
+  - destruct (t <=? now).
+    + eapply del_if_in. eapply IH; eauto.
+    + destruct (fire now tm hs) as [r' h'] eqn:E. inversion H; subst. eapply IH; eauto.
+Qed.
 
 Lemma rt_step_keys o s k h : In (k, h) (rt_handlers (fst (rt_step o s))) -> In k (map fst (rt_handlers s)) \/ named o k.
 Proof.
   unfold rt_step. destruct (rt_step_raw o s) as [s1 r] eqn:E1.
   destruct (fire (rt_now s1) (rt_timers s1) (rt_handlers s1)) as [tm hs] eqn:Ef. simpl.
-  destruct (fire_spec _ _ _ _ _ Ef) as (_ & F2 & _). intros Hin. destruct (F2 _ _ Hin) as [Hin1 _]. clear Hin F2 Ef.
+  intros Hin. pose proof (fire_sub _ _ _ _ _ _ _ Ef Hin) as Hin1. clear Hin Ef.
   assert (Hkey : forall x y, In (x, y) (rt_handlers s) -> In x (map fst (rt_handlers s))).
   { intros x y Hx. apply in_map_iff. exists (x, y). auto. }
-  destruct o as [c n|cd nw n|c|ids loc ex|d|t n|t|c]; simpl in E1.
+  destruct o as [c n|cd nw n|c|ids loc ex ps|d|t n|t|c sz]; simpl in E1.
   - destruct (hget c (rt_handlers s)); inversion E1; subst; simpl in *; [eauto|].
     apply hset_in in Hin1 as [[-> _]|[Hin1 _]]; [right; reflexivity|eauto].
   - destruct (hget cd (rt_handlers s)); inversion E1; subst; simpl in *; [eauto|].
@@ -222,24 +429,50 @@ Proof.
   - split; [intros _; exists O; reflexivity|reflexivity].
 Qed.
 
-Theorem backoff_power_of_two s c j :
+Local Arguments Z.mul : simpl never.
+Local Arguments Z.add : simpl never.
+
+(** closed_conn.go: CONNECTION_CLOSE is retransmitted for packet n iff n is a power of two AND the
+    retransmission stays within three times the bytes received for the closed connection *)
+Theorem backoff_power_of_two s c j size :
   hget c (rt_handlers s) = Some (HLocal j) ->
-  let v := match zget j (rt_counters s) with Some v => v | None => 0 end in
-  0 <= v -> v + 1 < 4294967296 ->
-  let r := snd (rt_step (RDeliver c) s) in
-  rr_kind r = 2 /\ (rr_sent r = 1 <-> exists k : nat, v + 1 = 2 ^ Z.of_nat k) /\ (rr_sent r = 0 \/ rr_sent r = 1).
+  let l := match zget j (rt_locals s) with Some v => v | None => mkL 0 0 0 0 end in
+  0 <= l_cnt l -> l_cnt l + 1 < 4294967296 ->
+  let r := snd (rt_step (RDeliver c size) s) in
+  rr_kind r = 2 /\
+  (rr_sent r = 1 <-> (exists k : nat, l_cnt l + 1 = 2 ^ Z.of_nat k) /\
+                     l_sent l + l_psize l <= 3 * (l_recv l + size)) /\
+  (rr_sent r = 0 \/ rr_sent r = 1).
 Proof.
-  intros Hg v Hv Hlt. unfold rt_step. simpl rt_step_raw. rewrite Hg.
-  destruct (fire _ _ _) as [tm hs]. simpl. fold v.
-  rewrite Z.mod_small by lia. split; [reflexivity|].
-  destruct (v + 1) as [|p|p] eqn:Ep; try lia. simpl popcount.
-  destruct (Z.eqb_spec (popcount_pos p) 1) as [H1|H1]; split; auto.
-  - split; [intros _; apply popcount_pos_one; assumption|reflexivity].
-  - split; [discriminate|]. intros Hk. apply popcount_pos_one in Hk. contradiction.
+  intros Hg l Hv Hlt. unfold rt_step. simpl rt_step_raw. rewrite Hg.
+  destruct (fire _ _ _) as [tm hs]. simpl. fold l.
+  rewrite Z.mod_small by lia. split; [reflexivity|]. unfold closedConnAmplificationFactor.
+  destruct (l_cnt l + 1) as [|p|p] eqn:Ep; try lia. simpl popcount.
+  destruct (Z.eqb_spec (popcount_pos p) 1) as [H1|H1]; simpl.
+  - destruct (Z.ltb_spec (3 * (l_recv l + size)) (l_sent l + l_psize l)) as [Hb|Hb]; simpl; split; auto.
+    + split; [discriminate|]. intros [_ Hle]. lia.
+    + split; [intros _; split; [apply popcount_pos_one; assumption|lia]|reflexivity].
+  - split; auto. split; [discriminate|]. intros [Hk _]. apply popcount_pos_one in Hk. contradiction.
 Qed.
 
-Theorem remote_closed_silent s c :
-  hget c (rt_handlers s) = Some HRemote -> rr_sent (snd (rt_step (RDeliver c) s)) = 0.
+(** the stand-in never sends more than three times what it received (RFC 9000 10.2.1) *)
+Theorem standin_amplification_step s c j size :
+  hget c (rt_handlers s) = Some (HLocal j) -> 0 <= size ->
+  let l := match zget j (rt_locals s) with Some v => v | None => mkL 0 0 0 0 end in
+  0 <= l_psize l -> l_sent l <= 3 * l_recv l ->
+  match zget j (rt_locals (fst (rt_step (RDeliver c size) s))) with
+  | Some l' => l_sent l' <= 3 * l_recv l' /\ l_psize l' = l_psize l
+  | None => False
+  end.
+Proof.
+  intros Hg Hs l Hp Hinv. unfold rt_step. simpl rt_step_raw. rewrite Hg.
+  destruct (fire _ _ _) as [tm hs]. simpl. rewrite Z.eqb_refl. fold l. simpl. unfold closedConnAmplificationFactor.
+  destruct (popcount _ =? 1); simpl; [|split; [lia|reflexivity]].
+  destruct (Z.ltb_spec (3 * (l_recv l + size)) (l_sent l + l_psize l)); simpl; split; try reflexivity; lia.
+Qed.
+
+Theorem remote_closed_silent s c size :
+  hget c (rt_handlers s) = Some HRemote -> rr_sent (snd (rt_step (RDeliver c size) s)) = 0.
 Proof.
   intros Hg. unfold rt_step. simpl rt_step_raw. rewrite Hg. destruct (fire _ _ _). reflexivity.
 Qed.
